@@ -872,8 +872,43 @@ type chainElem struct {
 
 func (c *Ctx) appendChain(v ssa.Value, depth int) (base ssa.Value, elems []chainElem) {
 	v = c.resolve(v)
-	if depth > 8 {
+	if depth > 24 {
 		return v, nil
+	}
+	// a list kept in a field of a local builder struct and extended step by
+	// step (`b.args = append(b.args, …)`): the store that reaches this load
+	if ld, isLd := v.(*ssa.UnOp); isLd && ld.Op == token.MUL {
+		if fa, isFA := ld.X.(*ssa.FieldAddr); isFA {
+			if sts, ok := c.localFieldStores(fa); ok && len(sts) > 1 {
+				var last *ssa.Store
+				okOrder := true
+				for _, st := range sts {
+					if !instrDominates(st, ld) {
+						continue
+					}
+					switch {
+					case last == nil || instrDominates(last, st):
+						last = st
+					case instrDominates(st, last):
+					default:
+						okOrder = false
+					}
+				}
+				// stores that do not dominate the load must come after it
+				for _, st := range sts {
+					if !instrDominates(st, ld) && !instrDominates(ld, st) {
+						okOrder = false
+					}
+				}
+				if last != nil && okOrder {
+					return c.appendChain(last.Val, depth+1)
+				}
+				if last == nil && okOrder {
+					// read before the first assignment: the zero value
+					return ssa.NewConst(nil, ld.Type()), nil
+				}
+			}
+		}
 	}
 	call, ok := v.(*ssa.Call)
 	if !ok || !isBuiltin(&call.Call, "append") {
